@@ -325,7 +325,11 @@ def generate():
             "def overrides : List (String × List String) := ["]
     out.append(",\n".join(f"  ({lean_str(L['name'])}, [{', '.join(lean_str(o) for o in L['overrides'])}])"
                           for L in layouts if L["overrides"]) + "]")
-    out += ["", "def layoutOf (c : String) : Option Layout := (classes.find? (·.1 = c)).map (·.2)", "",
+    out += ["", "/-- classes defined by the harness itself (a minimal user subclass with operator- and tensor-valued keyword",
+            "arguments: `super().__init__(base, extra_op=extra_op, scale=scale)`), so that the driver can rebuild them -/",
+            "def harnessClasses : List (String × Layout) := [",
+            '  ("UserWrapLinearOperator", ⟨1, false, ["base", "extra_op", "scale"], [("extra_op", (some .none)), ("scale", (some .none))], false, [], []⟩)]']
+    out += ["", "def layoutOf (c : String) : Option Layout := ((classes ++ harnessClasses).find? (·.1 = c)).map (·.2)", "",
             "end LinOp.Generated.C14", ""]
     text = "\n".join(out)
     path = os.path.join(LEAN, "LinOp", "Generated", "C14Classes.lean")
